@@ -8,6 +8,7 @@ import (
 	"net/http"
 	"net/http/httptest"
 	"os"
+	"path/filepath"
 	"os/exec"
 	"runtime"
 	"sort"
@@ -366,12 +367,24 @@ func TestChild(t *testing.T) {
 
 // ---------- the parent ----------
 
+// childOut is where the child processes leave their (unused) recorder files: inside the scratch
+// directory the driver removes after the run.
+func childOut() string {
+	d := os.Getenv("VERIF_SCRATCH")
+	if d == "" {
+		d = os.TempDir()
+	}
+	d = filepath.Join(d, "c19-children")
+	_ = os.MkdirAll(d, 0o755)
+	return d
+}
+
 func decide(p Plan) error {
 	raw, _ := json.Marshal(p)
 	for attempt := 0; ; attempt++ {
 		ctx, cancel := context.WithTimeout(context.Background(), 90*time.Second)
 		cmd := exec.CommandContext(ctx, os.Args[0], "-test.run=^TestChild$", "-test.count=1")
-		cmd.Env = append(os.Environ(), "VERIF_C19_PLAN="+string(raw), "VERIF_OUT="+os.TempDir(), "GORACE=halt_on_error=1 atexit_sleep_ms=0")
+		cmd.Env = append(os.Environ(), "VERIF_C19_PLAN="+string(raw), "VERIF_OUT="+childOut(), "GORACE=halt_on_error=1 atexit_sleep_ms=0")
 		out, err := cmd.CombinedOutput()
 		timedOut := ctx.Err() != nil
 		cancel()
